@@ -14,7 +14,8 @@ fn elt() -> u8 {
     v
 }
 fn ser<T: Serializable>(t: &T) -> Vec<u8> {
-    let mut s = Serializer::new();
+    // one allocation of constant size: no growth/realloc paths while writing
+    let mut s = Serializer::with_capacity(128);
     let r = s.write(t);
     assert!(r.is_ok());
     std::mem::forget(r);
@@ -38,6 +39,8 @@ pub(crate) fn capped_with_capacity<T>(n: usize) -> Vec<T> {
 #[kani::unwind(4)]
 #[kani::stub(zeroize::optimization_barrier, nop_barrier)]
 #[kani::stub(alloc::fmt::format, no_format)]
+#[kani::stub(<std::io::Error as std::fmt::Display>::fmt, io_error_display_nop)]
+#[kani::stub(<std::num::TryFromIntError as std::fmt::Display>::fmt, try_from_int_display_nop)]
 fn z_xenc_roundtrip() {
     let hyb: bool = kani::any();
     let tag: Tag = kani::any();
@@ -74,6 +77,8 @@ fn z_xenc_roundtrip() {
 #[kani::unwind(4)]
 #[kani::stub(zeroize::optimization_barrier, nop_barrier)]
 #[kani::stub(alloc::fmt::format, no_format)]
+#[kani::stub(<std::io::Error as std::fmt::Display>::fmt, io_error_display_nop)]
+#[kani::stub(<std::num::TryFromIntError as std::fmt::Display>::fmt, try_from_int_display_nop)]
 fn z_usk_roundtrip() {
     let hyb: bool = kani::any();
     let signed: bool = kani::any();
@@ -127,6 +132,8 @@ fn z_usk_roundtrip() {
 #[kani::unwind(4)]
 #[kani::stub(zeroize::optimization_barrier, nop_barrier)]
 #[kani::stub(alloc::fmt::format, no_format)]
+#[kani::stub(<std::io::Error as std::fmt::Display>::fmt, io_error_display_nop)]
+#[kani::stub(<std::num::TryFromIntError as std::fmt::Display>::fmt, try_from_int_display_nop)]
 fn z_msk_roundtrip() {
     let act: bool = kani::any();
     let hyb: bool = kani::any();
@@ -180,6 +187,8 @@ fn z_msk_roundtrip() {
 #[kani::unwind(4)]
 #[kani::stub(zeroize::optimization_barrier, nop_barrier)]
 #[kani::stub(alloc::fmt::format, no_format)]
+#[kani::stub(<std::io::Error as std::fmt::Display>::fmt, io_error_display_nop)]
+#[kani::stub(<std::num::TryFromIntError as std::fmt::Display>::fmt, try_from_int_display_nop)]
 fn z_mpk_roundtrip() {
     let hyb: bool = kani::any();
     let (p0, p1, h0) = (elt(), elt(), elt());
@@ -212,6 +221,8 @@ fn z_mpk_roundtrip() {
 #[kani::unwind(5)]
 #[kani::stub(zeroize::optimization_barrier, nop_barrier)]
 #[kani::stub(alloc::fmt::format, no_format)]
+#[kani::stub(<std::io::Error as std::fmt::Display>::fmt, io_error_display_nop)]
+#[kani::stub(<std::num::TryFromIntError as std::fmt::Display>::fmt, try_from_int_display_nop)]
 fn x_header_frames() {
     use crate::{CleartextHeader, EncryptedHeader};
     let tag: Tag = kani::any();
@@ -264,6 +275,8 @@ macro_rules! parse_total {
         #[kani::unwind($unwind)]
         #[kani::stub(zeroize::optimization_barrier, nop_barrier)]
         #[kani::stub(alloc::fmt::format, no_format)]
+        #[kani::stub(<std::io::Error as std::fmt::Display>::fmt, io_error_display_nop)]
+#[kani::stub(<std::num::TryFromIntError as std::fmt::Display>::fmt, try_from_int_display_nop)]
         #[kani::stub(std::vec::Vec::with_capacity, capped_with_capacity)]
         fn $name() {
             let buf: [u8; $L] = kani::any();
@@ -288,6 +301,8 @@ parse_total!(u_parse_tpk, TracingPublicKey, 6, 8);
 #[kani::unwind(4)]
 #[kani::stub(zeroize::optimization_barrier, nop_barrier)]
 #[kani::stub(alloc::fmt::format, no_format)]
+#[kani::stub(<std::io::Error as std::fmt::Display>::fmt, io_error_display_nop)]
+#[kani::stub(<std::num::TryFromIntError as std::fmt::Display>::fmt, try_from_int_display_nop)]
 fn u_use_degenerate_values() {
     // an encapsulation with zero traps: 16-byte tag, count 0, classic, zero encapsulations
     let mut bytes = [0u8; 19];
